@@ -63,6 +63,27 @@ def stepLine (_ : Unit) (ws0 : List String) : Unit × String :=
       let o : Obj := if objk == "missing" then .missing else .body obj (objk == "bodyerr")
       ((), showResp (download (H .sha256) (presign == "1") maxBlob mode ig o))
     | _, _, _, _, _, _ => ((), "bad-op")
+  | ["download", presign, maxBlob, mode, integ, sha, alg, size, objk, obj, _rid] =>     -- the request id is not an input of the decision
+    match maxBlob.toInt?, fromHex mode, fromHex sha, fromHex alg, size.toInt?, fromHex obj with
+    | some maxBlob, some mode, some sha, some alg, some size, some obj =>
+      let ig : Option Integrity := if integ == "some" then some ⟨sha, alg, size⟩ else none
+      let o : Obj := if objk == "missing" then .missing else .body obj (objk == "bodyerr")
+      ((), showResp (download (H .sha256) (presign == "1") maxBlob mode ig o))
+    | _, _, _, _, _, _ => ((), "bad-op")
+  | "cdl" :: _n :: _order :: rest =>
+    -- concurrent downloads are INDEPENDENT in the model: each answer is the sequential decision for
+    -- its own request and its own object, whatever the request ids and the schedule
+    let rec go : List String → List String
+      | _rid :: sha :: size :: obj :: more =>
+        (match fromHex sha, size.toInt?, fromHex obj with
+         | some sha, some size, some obj =>
+           (match download (H .sha256) false 0 (LfsEnvelope.ascii "stream") (some ⟨sha, [], size⟩) (.body obj false) with
+            | .status c => s!"status:{c}"
+            | .presigned _ _ => "presigned"
+            | .bytes b => s!"bytes:{toHex b}")
+         | _, _, _ => "bad") :: go more
+      | _ => []
+    ((), "cdl " ++ " ".intercalate (go rest))
   | _ => ((), "bad-op")
 
 def main : IO Unit := runLines () stepLine
